@@ -17,7 +17,9 @@
    Call site: [uses : form of the `uses:` text of a local action, with : seq of names,
                valueTypes : seq of value kinds (parallel to with), secrets : seq of names, inherit,
                outputRefs : seq of names]
-   d.loc is the directory of a local action: "sub" (./.github/actions/x) or "root" (the repository root).
+   d.loc is the directory of a local action: "sub" (./.github/actions/x) or "root" (the repository root);
+   d.using is its `runs.using` (composite | node20 | docker: the runners the checker accepts, each
+   rendered with the keys that kind requires; node16: a JavaScript action on a runner it rejects).
    A diagnostic is [class, name].
 
    Declarative layer : Expected(iface, call) - the property C14 as stated.
@@ -38,6 +40,7 @@ CONSTANTS Kinds,        \* subset of {"action", "workflow", "popular"}
           ValueKinds,   \* value kinds passed to inputs of reusable workflows (names, see LitKinds / ExprKinds)
           Locs,         \* directories of a local action to try: subset of {"sub", "root"}
           UsesForms,    \* spellings of `uses:` of a local action to try (see UsesForm)
+          Usings,       \* `runs.using` of a local action to try: subset of {"composite", "node20", "docker", "node16"}
           Extras,       \* BOOLEAN: call sites may use one undeclared input / secret / output name
           Inherit,      \* BOOLEAN: `secrets: inherit` is tried
           Skips         \* BOOLEAN: skip_inputs / skip_outputs are tried (bundled table only)
@@ -81,7 +84,7 @@ HasDefault(kind, def) == IF kind = "workflow" THEN def # "absent" ELSE def \in {
 Mandatory(kind, in) == in.req = "true" /\ ~HasDefault(kind, in.def)
 
 Iface(d) ==
-  [kind |-> d.kind, repo |-> "",
+  [kind |-> d.kind, repo |-> "", using |-> d.using,
    inputs |-> [i \in DOMAIN d.inputs |-> [n |-> d.inputs[i].n, required |-> d.inputs[i].req = "true",
                                           hasDefault |-> HasDefault(d.kind, d.inputs[i].def), type |-> d.inputs[i].type]],
    secrets |-> [i \in DOMAIN d.secrets |-> [n |-> d.secrets[i].n, required |-> d.secrets[i].req = "true"]],
@@ -124,6 +127,7 @@ AssignOK(declType, vt) ==
     [] declType = "string" -> vt \in {"string", "number", "any"}
     [] OTHER -> TRUE
 
+ValidRunners == {"composite", "docker", "node20"}
 \* outputs set dynamically: skip_outputs of the table, and actions/github-script (core.setOutput)
 DynamicOutputs(f) == f.skipOutputs \/ f.repo = "actions/github-script"
 
@@ -152,7 +156,10 @@ Expected(f, c) ==
                                    \E k \in DOMAIN c.with : /\ c.with[k].id = f.inputs[j].n.id
                                                             /\ ~Borderline(c.valueTypes[k])
                                                             /\ ~AssignOK(f.inputs[j].type, TypeOf(c.valueTypes[k]))}}
-  IN undefIn \cup missIn \cup undefSec \cup missSec \cup undefOut \cup mismatch
+      \* the interface checks do not depend on how the action is run; a local action on a runner
+      \* that is no longer available is reported as such (once, where it is used)
+      runner == IF f.kind = "action" /\ f.using \notin ValidRunners THEN {D("invalid-runner", "")} ELSE {}
+  IN undefIn \cup missIn \cup undefSec \cup missSec \cup undefOut \cup mismatch \cup runner
 
 \* diagnostics whose presence the property leaves open: type-mismatch of an input that is given a
 \* borderline literal
@@ -211,7 +218,7 @@ ActionMeta(d, R(_)) ==
   [inputs |-> [id \in {d.inputs[i].n.id : i \in DOMAIN d.inputs} |->
                  [name |-> InById(d, id).n.sp, required |-> R(InById(d, id))]],
    outputs |-> [id \in Ids(d.outputs) |-> OutById(d.outputs, id).sp],
-   skipInputs |-> d.skipInputs, skipOutputs |-> d.skipOutputs]
+   skipInputs |-> d.skipInputs, skipOutputs |-> d.skipOutputs, using |-> d.using]
 
 WfType(t) == IF t \in {"boolean", "number", "string"} THEN t ELSE "any"
 \* ReusableWorkflowMetadata from parseReusableWorkflowMetadata / WriteWorkflowCallEvent
@@ -262,7 +269,11 @@ FormsFor(loc) == {f \in DOMAIN UsesForm : UsesForm[f].dir = loc}
 OpLocalAction(meta, loc, c) ==
   LET f == UsesForm[c.uses]
       found == f.dotSlash /\ f.dir = loc      \* action.yml exists in the directory the text resolves to
-  IN (IF found THEN OpCheckAction(meta, c) ELSE {}) \cup (IF found THEN OpStepOutputs(meta, "", c) ELSE {})
+      \* rule_action.go:480 checkLocalActionRuns (first use of the action in the run): the switch on
+      \* runs.using has the cases "docker", "composite", "node20"; anything else is an invalid runner name.
+      \* Neither checkAction nor getActionOutputsType / typeOfActionOutputs consult meta.Runs.
+      runs == IF found /\ meta.using \notin {"docker", "composite", "node20"} THEN {D("invalid-runner", "")} ELSE {}
+  IN (IF found THEN OpCheckAction(meta, c) ELSE {}) \cup (IF found THEN OpStepOutputs(meta, "", c) ELSE {}) \cup runs
 
 \* rule_workflow_call.go:75 checkWorkflowCallUsesLocal
 OpWorkflowCall(m, c) ==
@@ -350,7 +361,7 @@ KnownDeviation(path, d, c) ==
 VARIABLES d, call, tc
 vars == <<d, call, tc>>
 
-D0(kind, loc) == [kind |-> kind, loc |-> loc, inputs |-> <<>>, secrets |-> <<>>, outputs |-> <<>>,
+D0(kind, loc, using) == [kind |-> kind, loc |-> loc, using |-> using, inputs |-> <<>>, secrets |-> <<>>, outputs |-> <<>>,
                   skipInputs |-> FALSE, skipOutputs |-> FALSE]
 C0(form) == [uses |-> form, with |-> <<>>, valueTypes |-> <<>>, secrets |-> <<>>, inherit |-> FALSE, outputRefs |-> <<>>]
 NoArgs(c) == c.with = <<>> /\ c.secrets = <<>> /\ ~c.inherit /\ c.outputRefs = <<>>
@@ -360,7 +371,8 @@ Vector(dd, c) == ToJson([d |-> dd, iface |-> Iface(dd), call |-> c, exp |-> Expe
                          op |-> [p \in PathsOf(dd.kind) |-> Op(p, dd, c)]])
 
 \* the directory and the spelling of `uses:` vary for local actions only
-Init == /\ d \in {D0(k, "sub") : k \in Kinds} \cup {D0("action", l) : l \in IF "action" \in Kinds THEN Locs ELSE {}}
+Init == /\ d \in {D0(k, "sub", "composite") : k \in Kinds \ {"action"}}
+                 \cup {D0("action", l, u) : l \in IF "action" \in Kinds THEN Locs \cup {"sub"} ELSE {}, u \in Usings \cup {"composite"}}
         /\ call \in IF d.kind = "action" THEN {C0(f) : f \in FormsFor(d.loc) \cap (UsesForms \cup {"plain", "root"})}
                     ELSE {C0("plain")}
         /\ tc = Vector(d, call)
@@ -442,7 +454,7 @@ FilePathsAgree == d.kind = "workflow" => Op("file", d, call) = Op("file2", d, ca
 ExpectedWellFormed ==
   LET e == Expected(Iface(d), call) IN
   /\ \A x \in e : x.class \in {"undefined-input", "missing-required-input", "undefined-secret",
-                               "missing-required-secret", "undefined-output", "type-mismatch"}
+                               "missing-required-secret", "undefined-output", "type-mismatch", "invalid-runner"}
   /\ \A x \in e : x.class = "missing-required-input" => x.name \notin {call.with[i].sp : i \in DOMAIN call.with}
   /\ call.inherit => \A x \in e : x.class \notin {"undefined-secret", "missing-required-secret"}
   /\ d.skipInputs => \A x \in e : x.class \notin {"undefined-input", "missing-required-input"}
@@ -453,6 +465,14 @@ UsesInsensitive ==
   d.kind = "action" =>
     \A f \in FormsFor(d.loc) : /\ Expected(Iface(d), [call EXCEPT !.uses = f]) = Expected(Iface(d), call)
                                /\ Op("local", d, [call EXCEPT !.uses = f]) = Op("local", d, call)
+\* the way a local action is run does not change the verdicts of the interface checks
+Reusing(dd, u) == [dd EXCEPT !.using = u]
+UsingInsensitive ==
+  d.kind = "action" =>
+    \A u \in {"composite", "node20", "docker", "node16"} :
+      LET nr(S) == {x \in S : x.class # "invalid-runner"} IN
+      /\ nr(Expected(Iface(Reusing(d, u)), call)) = nr(Expected(Iface(d), call))
+      /\ nr(Op("local", Reusing(d, u), call)) = nr(Op("local", d, call))
 \* the scalar style of a literal value does not change the verdicts (judged on the unambiguous
 \* classes: the unspecified diagnostics are left out)
 Restyle(vk, st) == IF vk \in LitNames THEN st \o ":" \o LitOf(vk).cls ELSE vk
